@@ -117,6 +117,22 @@ impl Rig {
         }
     }
 
+    /// The external catch-up entry point is no heartbeat: it must not count as evidence either (same call on both nodes).
+    fn catch_up(&mut self, i: usize, max_version: u64) {
+        self.step += 1;
+        let id = cid(&self.members[i]);
+        for node in [&mut self.main, &mut self.twin] {
+            if let Err(p) = catch(|| node.cc.reset_node_state_if_update(&id, std::iter::empty(), max_version, 0)) {
+                self.out.findings.push(Finding::new(&["C18"], "fd.catchup_panic", format!("{}: catch-up panicked: {p}", self.ctx)));
+            }
+        }
+        // a catch-up may create the copy: it is then known, with no heartbeat value observed so far
+        if self.main.cc.node_state(&id).is_some() && !self.shadows[i].known {
+            self.shadows[i].known = true;
+        }
+        self.out.c.inc("catch_up_calls");
+    }
+
     fn eval(&mut self) {
         self.step += 1;
         let now = Instant::now();
@@ -159,7 +175,13 @@ impl Rig {
             if is_live == is_dead {
                 self.fail(&["C12", "C10"], "fd.unclassified", format!("x{i} live={is_live} dead={is_dead} right after an evaluation"));
             }
-            let last_fresh = sh.fresh.last().map(|f| f.0).unwrap();
+            let Some(last_fresh) = sh.fresh.last().map(|f| f.0) else {
+                // known only through a catch-up call: no heartbeat value was ever observed
+                if is_live {
+                    self.fail(&["C10", "C11"], "fd.live_with_fewer_than_two_values", format!("x{i} is live although no heartbeat value was ever delivered for it (only catch-up calls)"));
+                }
+                continue;
+            };
             let elapsed = now - last_fresh;
             // C10: completeness with a bounded delay
             let bound_s = self.cfg.phi * self.cfg.max_interval.max(self.cfg.initial_interval).as_secs_f64();
@@ -236,7 +258,7 @@ fn pick_dur(rng: &mut StdRng, cfg: &FdCfg) -> Duration {
     }
 }
 
-pub async fn random_history(seed: u64, i: u64, max_events: usize) -> HistOut {
+pub async fn random_history(seed: u64, i: u64, max_events: usize, allow_catchup: bool) -> HistOut {
     let mut rng = rng_from(mix3(seed, i, 0xFD));
     let scale = [0.01f64, 0.1, 1.0, 10.0][rng.random_range(0..4)];
     let cfg = FdCfg {
@@ -257,6 +279,9 @@ pub async fn random_history(seed: u64, i: u64, max_events: usize) -> HistOut {
     let nm = rng.random_range(1..=3);
     let mut rig = Rig::new(cfg.clone(), nm, format!("history {i} cfg {cfg:?}"));
     let events = rng.random_range(1..=max_events);
+    // a quarter of the histories interleave calls of the external catch-up entry point (no heartbeat in them)
+    let with_catchup = allow_catchup && rng.random_range(0..4) == 0;
+    let mut catchup_mv: Vec<u64> = vec![0; nm];
     let mut cur: Vec<u64> = (0..nm).map(|_| rng.random_range(1..100)).collect();
     // a regime shapes a stretch of the history
     let mut regime = rng.random_range(0..5);
@@ -274,7 +299,11 @@ pub async fn random_history(seed: u64, i: u64, max_events: usize) -> HistOut {
         };
         tokio::time::advance(dt).await;
         let r = rng.random_range(0..100);
-        if r < 65 {
+        if with_catchup && r >= 97 {
+            let m = rng.random_range(0..nm);
+            catchup_mv[m] += rng.random_range(1..3);
+            rig.catch_up(m, catchup_mv[m]);
+        } else if r < 65 {
             let mut vals = vec![None; nm];
             for m in 0..nm {
                 if rng.random_bool(0.8) {
@@ -383,7 +412,7 @@ pub fn check(args: &Args, prop: &str) -> Outcome {
         let rt = paused_rt();
         // every 500th history is long (up to 2,000 arrivals)
         let me = if i % 500 == 0 && !miri { 2000 } else { max_events };
-        Some(catch(|| rt.block_on(random_history(seed, i, me))))
+        Some(catch(|| rt.block_on(random_history(seed, i, me, !miri))))
     });
     let done = res.len() as u64;
     for (i, r) in res {
@@ -416,6 +445,18 @@ pub fn check(args: &Args, prop: &str) -> Outcome {
     }
     ev.rule = "history = seeded configuration (phi 0.5-16, window 1/2/10/1000, intervals over three orders of magnitude) + up to 120/400 (every 500th: 2,000) events: SYN digests carrying fresh / equal / lower / duplicated heartbeat values for 1-3 members at gaps 0, 1 ns, << / = / > max_interval, steady and jittered stretches, bursts, silences beyond the deadline, interleaved with evaluations; a twin node receives only the fresh values; distinct = hash of the (value, freshness) sequence; plus 72 exact-boundary witnesses with dyadic intervals".into();
     ev.assumptions = vec!["claims are asserted with a relative margin of 1e-9 (+1us) outside the boundary; the exact-boundary witnesses use dyadic values so that float arithmetic is exact".into(), "heartbeats reach the node through SYN digests only (the quantifier of C11)".into()];
+    if prop == "C11" && !args.has("--miri") {
+        // whole simulated clusters: heartbeats relayed by third parties, deltas, resets, restarts (the monitor "no member
+        // is live before two strictly increasing values were delivered since its copy was created")
+        let e1 = crate::e1::run_e1(args, "C11", &deadline);
+        ev.evaluations += e1.traces;
+        ev.counters.merge(&e1.stats);
+        ev.distinct.extend(e1.distinct.iter());
+        violations.extend(e1.findings);
+        if let Some(s) = e1.samples.first() {
+            ev.samples.push(json!({"e1_trace": s}));
+        }
+    }
     let trigger = if prop == "C10" { "c10_deadline_claims" } else { "c11_accuracy_claims" };
     let nothing = ev.counters.get(trigger) == 0;
     Outcome { evidence: ev, violations, nothing_observed: nothing }
